@@ -101,3 +101,44 @@ pub fn run(path: &str) -> i32 {
         other => crate::replay_more::run(other, prop, path, &v),
     }
 }
+
+
+struct ExploreVisitor<'a> {
+    q: &'a Query,
+    ra: &'a RefAnswers,
+    limit: usize,
+}
+
+impl<'a> BuiltVisitor for ExploreVisitor<'a> {
+    fn visit<T: LabelType>(&mut self, b: &Built<T>) {
+        let cfg = ExploreCfg { dev_bound: None, call_limit: self.limit, ..ExploreCfg::default() };
+        let mut n = 0;
+        let q = self.q;
+        let ra = self.ra;
+        let st = crate::choicesat::explore(&cfg, &mut |f| run_query(b, q, f), &mut |e: &crate::choicesat::Exec<Out>| {
+            n += 1;
+            let desc = match e.result {
+                Ok(o) => format!("{} deviations={:?}", o.describe(), judge(ra, q, o)),
+                Err(p) => format!("panic: {}", p),
+            };
+            if n <= 200 {
+                println!("exec {:4} choices={:?} calls={} limit_hit={} -> {}", n, e.choices, e.calls.len(), e.call_limit_hit, desc);
+            }
+        });
+        println!("total executions: {} stats: {:?}", n, st.map(|s| (s.execs, s.nodes, s.max_calls)).ok());
+    }
+}
+
+/// debug helper: explore the complete oracle tree of one static case and print every execution
+pub fn explore_case(path: &str) -> i32 {
+    let text = std::fs::read_to_string(path).expect("cannot read case");
+    let v: Value = serde_json::from_str(&text).expect("not JSON");
+    let case = if v.get("case").is_some() { &v["case"] } else { &v };
+    let g = Graph::from_json(&case["graph"]);
+    let pres = Presentation::from_name(case["presentation"].as_str().unwrap_or("compact")).unwrap();
+    let q = Query::from_json(&case["query"]);
+    let ra = RefAnswers::new(&g);
+    let mut vis = ExploreVisitor { q: &q, ra: &ra, limit: case["call_limit"].as_u64().unwrap_or(60) as usize };
+    with_presentation(&g, pres, &mut vis);
+    0
+}
